@@ -38,10 +38,10 @@ Definition ref_insert_post (nk nv : Z -> Z) (idx cap size key value : Z) : gres 
 (* ------------------------------------------------------------------ heap extract *)
 Definition ref_extract_pre (nk nv : Z -> Z) (size okey ovalue : Z) : gres :=
   if size =? 0 then mkres 0 nk nv [0; okey; ovalue; size] [] []
-  else mkres 10 nk nv [1; size - 1; size; nk 1; nv 1] [] [].
+  else mkres 10 nk nv [1; size; size - 1; nk 1; nv 1] [] [].      (* i, last_node, size, out.key, out.value *)
 
 (* [last] = index of *last_node (the old size) *)
-Definition ref_extract_step (nk nv : Z -> Z) (i size last : Z) : gres :=
+Definition ref_extract_step (nk nv : Z -> Z) (i last size : Z) : gres :=
   if i * 2 <=? size then
     let c := i * 2 in
     let c := if negb (c =? size) && (kf (nk (c + 1)) <? kf (nk c)) then c + 1 else c in
@@ -49,7 +49,7 @@ Definition ref_extract_step (nk nv : Z -> Z) (i size last : Z) : gres :=
     else mkres 50 nk nv [i] [] []
   else mkres 50 nk nv [i] [] [].
 
-Definition ref_extract_post (nk nv : Z -> Z) (i size okey ovalue last : Z) : gres :=
+Definition ref_extract_post (nk nv : Z -> Z) (i last size okey ovalue : Z) : gres :=
   mkres 0 (aset nk i (nk last)) (aset nv i (nv last)) [1; okey; ovalue; size] [] [].
 
 (* ------------------------------------------------------------------ heap remove *)
@@ -75,7 +75,7 @@ Definition ref_remove_step (nk nv : Z -> Z) (idx last size : Z) : gres :=
       else mkres 50 nk nv [idx] [] []
     else mkres 50 nk nv [idx] [] [].
 
-Definition ref_remove_post (nk nv : Z -> Z) (idx size last : Z) : gres :=
+Definition ref_remove_post (nk nv : Z -> Z) (idx last size : Z) : gres :=
   mkres 0 (aset nk idx (nk last)) (aset nv idx (nv last)) [1; size] [] [].
 
 (* ------------------------------------------------------------------ heap find / clear *)
@@ -104,7 +104,7 @@ Definition ref_ins_inner_step (pa pb : Z -> Z) (j tmp : Z) : gres :=
     if kf (pa (j - 1)) >? kf tmp then mkres 11 (aset pa j (pa (j - 1))) pb [j - 1] [] []
     else mkres 51 pa pb [j] [] []
   else mkres 51 pa pb [j] [] [].
-Definition ref_ins_inner_post (pa pb : Z -> Z) (j tmp i : Z) : gres := mkres 10 (aset pa j tmp) pb [i + 1] [] [].
+Definition ref_ins_inner_post (pa pb : Z -> Z) (j i tmp : Z) : gres := mkres 10 (aset pa j tmp) pb [i + 1] [] [].
 Definition ref_ins_outer_post (pa pb : Z -> Z) (i : Z) : gres := mkres 0 pa pb [1] [] [].
 
 (* ------------------------------------------------------------------ shell sort *)
@@ -119,7 +119,7 @@ Definition ref_shell_inner_step (pa pb : Z -> Z) (j inc tmp : Z) : gres :=
     if kf tmp <? kf (pa (j - inc)) then mkres 12 (aset pa j (pa (j - inc))) pb [j - inc] [] []
     else mkres 52 pa pb [j] [] []
   else mkres 52 pa pb [j] [] [].
-Definition ref_shell_inner_post (pa pb : Z -> Z) (j tmp i : Z) : gres := mkres 11 (aset pa j tmp) pb [i + 1] [] [].
+Definition ref_shell_inner_post (pa pb : Z -> Z) (j i tmp : Z) : gres := mkres 11 (aset pa j tmp) pb [i + 1] [] [].
 Definition ref_shell_mid_post (pa pb : Z -> Z) (i inc : Z) : gres := mkres 10 pa pb [inc / 2] [] [].
 Definition ref_shell_gap_post (pa pb : Z -> Z) (inc : Z) : gres := mkres 0 pa pb [1] [] [].
 
@@ -145,7 +145,9 @@ Definition ref_mrec_pre (pa pb : Z -> Z) (left right : Z) (a1 b1 a2 b2 : Z -> Z)
     mkres 10 a2 b2 [left; center + 1; left; center]        (* l, r, idx, center *)
           [(4, [0; 0; left; center]); (4, [0; 0; center + 1; right])] [pa; pb; a1; b1]
   else mkres 0 pa pb [0] [] [].
-(* one iteration of the comparing merge loop (the tail loops / block copies are outside the tie) *)
+(* one iteration of the merge loop WHILE BOTH RUNS HAVE ELEMENTS (l <= center, r <= right, idx <= right): this is what
+   the three-loop form and the fused one-loop form of the C text have in common; the exit of the loop, the tail
+   loops / block copies and the copy-back are outside the tie *)
 Definition ref_mrec_merge_step (pa pb : Z -> Z) (l r idx center right : Z) : gres :=
   if (l <=? center) && (r <=? right) then
     if kf (pa l) <=? kf (pa r) then mkres 10 pa (aset pb idx (pa l)) [l + 1; r; idx + 1] [] []
@@ -174,7 +176,7 @@ Definition ref_qrec_pre (cutoff : Z) (pa pb : Z -> Z) (left right : Z) (ains : Z
 Definition ref_qrec_part_step (pa pb : Z -> Z) (i j pivot : Z) : gres := mkres 11 pa pb [i; pivot; j] [] [].
 Definition ref_qrec_up_step (pa pb : Z -> Z) (i pivot : Z) : gres :=
   if kf (pa (i + 1)) <? kf pivot then mkres 11 pa pb [i + 1] [] [] else mkres 51 pa pb [i + 1] [] [].
-Definition ref_qrec_up_post (pa pb : Z -> Z) (i j pivot : Z) : gres := mkres 12 pa pb [j; pivot; i] [] [].
+Definition ref_qrec_up_post (pa pb : Z -> Z) (i pivot j : Z) : gres := mkres 12 pa pb [j; pivot; i] [] [].
 Definition ref_qrec_down_step (pa pb : Z -> Z) (j pivot : Z) : gres :=
   if kf (pa (j - 1)) >? kf pivot then mkres 12 pa pb [j - 1] [] [] else mkres 52 pa pb [j - 1] [] [].
 Definition ref_qrec_down_post (pa pb : Z -> Z) (j i : Z) : gres :=
